@@ -573,6 +573,9 @@ class Executor:
         except Exception:
             return FltV(self.fresh_real('flit'), n['ty'])
 
+    def ev_ImaginaryLiteral(self, n, st):
+        return FltV(z3.Real('_Complex_I'), n['ty'])
+
     def ev_StringLiteral(self, n, st):
         v = n.get('value', '""')
         try:
@@ -1000,8 +1003,12 @@ class Executor:
             r = IntV(-v.t, n['ty'])
             self.arith_oblig(r, n, st)
             return r
-        if op == '+':
+        if op == '+' or op == '__extension__':
             return self.ev(a, st)
+        if op in ('__real', '__imag'):
+            v = self.ev(a, st)
+            f = z3.Function(op.strip('_'), z3.RealSort(), z3.RealSort())
+            return FltV(f(v.t), n['ty']) if isinstance(v, FltV) else v
         if op == '~':
             raise Unsupported('bitwise not')
         if op in ('++', '--'):
